@@ -137,6 +137,11 @@ def monitor_(op_line, out_line, st):
         return f'returned u is not the û of the final iterate (status {stx["status"]})'
     if not finite_out:
         if stx['status'] == 'Converged':
+            if tol == math.inf:
+                # hypothesis "finite tolerance" of `nonfinite_never_converged`; with tolerance = +inf the code
+                # accepts ε = +inf (Lean: `inf_tolerance_accepts_inf`, admitted in MANIFEST C06) — counted
+                bump('exempt_converged_by_infinite_tolerance')
+                return None
             return 'Converged with non-finite outputs'
         fin_it = all(math.isfinite(a) for a in r['cbs'][-1]['u'] + r['cbs'][-1]['grad_psi'])
         if fin_it and all(math.isfinite(a) for a in u):
@@ -185,6 +190,9 @@ def monitor_(op_line, out_line, st):
     cb = r['cbs'][-1]
     if not all(math.isfinite(a) for a in cb['u'] + cb['grad_psi']) or max([abs(a) for a in cb['u']] + [0.0]) > 1e60:
         bump('exempt_final_iterate_nonfinite_or_beyond_1e60')
+        if stx['status'] == 'Converged' and tol == math.inf:
+            bump('exempt_converged_by_infinite_tolerance')
+            return None
         return None if stx['status'] != 'Converged' else 'Converged with a non-finite final iterate'
     uk = L.frv(cb['u'])
     gex = ex.psi_grad(uk, y0, mu)[1]
